@@ -6,7 +6,7 @@
 From Coq Require Import List ZArith NArith Bool.
 From Coq.Strings Require Import Byte.
 Import ListNotations.
-From SV Require Import Text G_codes G_flags C05_Model C05_Lemmas C06_Model C06_Lemmas.
+From SV Require Import Text G_codes G_flags C05_Model C05_Lemmas C06_Model C06_Lemmas C06_Round6.
 Local Open Scope Z_scope.
 
 (* ---- extraction (no update_fts) ---- *)
@@ -269,6 +269,152 @@ Theorem C06_run_op_modes : forall mode data fts w u sp fi gap, wf_C06 data fts w
 Proof. exact run_op_modes. Qed.
 Print Assumptions C06_run_op_modes.
 
+(* ---- round 6 ---- *)
+(* the harness decides the domain with wf_C06u (RNA allowed); the DNA domain the theorems above are stated on lies inside it *)
+Theorem C06_wf_dna_in_rna : forall data fts w u sp fi gap, wf_C06 data fts w u sp fi gap = true -> wf_C06u data fts w u sp fi gap = true.
+Proof. exact wf_dna_in_rna. Qed.
+Print Assumptions C06_wf_dna_in_rna.
+
+(* type-name lookup: the FIRST feature whose type EQUALS the name case-insensitively (no prefix / substring matching: a matching
+   type has the length of the name); features without a type never match *)
+Theorem C06_type_lookup_spec : forall name fts,
+  (forall f, fts_get name fts = Some f <->
+     exists pre post, fts = pre ++ f :: post /\ type_matches name f = true /\
+                      forallb (fun g => negb (type_matches name g)) pre = true) /\
+  (fts_get name fts = None <-> forallb (fun g => negb (type_matches name g)) fts = true) /\
+  (forall f, type_matches name f = true <-> exists t, ftype f = Some t /\ lower t = lower name) /\
+  (forall f t, type_matches name f = true -> ftype f = Some t -> length t = length name).
+Proof. exact type_lookup_spec. Qed.
+Print Assumptions C06_type_lookup_spec.
+
+(* BioBasket: seqs[a:b:st, w] is exactly the selected sequences, in order, each replaced by its sequence-level window
+   (elem_ok w .. e r: r carries e's tag and getitem_g (snd e) w .. = Ok (snd r)) *)
+Theorem C06_basket_slice_window : forall qs a b st w u sp fi gap rs,
+  basket_getitem qs (BPairS a b st w) u sp fi gap = Ok (BMany rs) <->
+  exists sel, list_slice qs a b st = Ok sel /\ Forall2 (elem_ok w u sp fi gap) sel rs.
+Proof. exact basket_slice_window. Qed.
+Print Assumptions C06_basket_slice_window.
+
+Theorem C06_basket_slice_window_error : forall qs a b st w u sp fi gap e,
+  basket_getitem qs (BPairS a b st w) u sp fi gap = Err e <->
+  list_slice qs a b st = Err e \/
+  exists sel pre x post, list_slice qs a b st = Ok sel /\ sel = pre ++ x :: post /\
+    (forall y, In y pre -> exists r, getitem_g (snd y) w u sp fi gap = Ok r) /\ getitem_g (snd x) w u sp fi gap = Err e.
+Proof. exact basket_slice_window_error. Qed.
+Print Assumptions C06_basket_slice_window_error.
+
+Theorem C06_basket_forms : forall qs w u sp fi gap,
+  basket_getitem qs (BWin w) u sp fi gap = basket_getitem qs (BPairS None None None w) u sp fi gap /\
+  (forall i, basket_getitem qs (BPairI i w) u sp fi gap =
+     bind (list_item qs i) (fun e => bind (getitem_g (snd e) w u sp fi gap) (fun r => Ok (BOne (fst e, r))))) /\
+  (forall i, basket_getitem qs (BInt i) u sp fi gap = bind (list_item qs i) (fun e => Ok (BOne e))) /\
+  (forall i, (i < - Z.of_nat (length qs) \/ Z.of_nat (length qs) <= i) -> basket_getitem qs (BPairI i w) u sp fi gap = Err E_Index).
+Proof. exact basket_forms. Qed.
+Print Assumptions C06_basket_forms.
+
+(* seqs[a:b:st, feature | location | 'type'] is the map of C06_extract_spec over the selected sequences *)
+Theorem C06_basket_extract : forall qs a b st sp fi,
+  (forall ls, basket_getitem qs (BPairS a b st (WFeat ls)) false sp fi None =
+     bind (list_slice qs a b st) (fun sel => Ok (BMany (map (extract_elem ls sp fi) sel)))) /\
+  (forall l, basket_getitem qs (BPairS a b st (WLoc l)) false sp fi None =
+     bind (list_slice qs a b st) (fun sel => Ok (BMany (map (extract_elem [l] sp fi) sel)))) /\
+  (forall name, basket_getitem qs (BPairS a b st (WType name)) false sp fi None =
+     bind (list_slice qs a b st) (fun sel =>
+       bind (map_res (fun e => match find (type_matches name) (sfts (snd e)) with
+                               | Some f => Ok (extract_elem (flocs f) sp fi e)
+                               | None => Err E_Value
+                               end) sel) (fun r => Ok (BMany r)))).
+Proof. exact basket_extract. Qed.
+Print Assumptions C06_basket_extract.
+
+(* BioBasket.rc(update_fts): every sequence is reverse-complemented and its features are mirrored about ITS OWN length *)
+Theorem C06_basket_rc : forall qs u sp fi gap,
+  basket_getitem qs BRc u sp fi gap = Ok (BMany (map (fun e => (fst e, seq_rc (snd e) u)) qs)) /\
+  (forall e, In e qs ->
+     let q := snd e in
+     let len := Z.of_nat (length (sdata q)) in
+     forallb in_alpha (sdata q) = true -> forallb (ft_in len) (sfts q) = true ->
+     seq_rc q true = mkSeq (rc (sdata q)) (map (feature_rc len) (sfts q)) /\
+     forall f l, In f (sfts q) -> In l (flocs f) -> is_pm (lstrand l) = true ->
+       piece (rc (sdata q)) (loc_reverse len l) = piece (sdata q) l).
+Proof. exact basket_rc_spec. Qed.
+Print Assumptions C06_basket_rc.
+
+(* gap=g with ANY slice bounds (omitted, negative, beyond the ends, crossing) and with int windows *)
+Theorem C06_gap_window_spec_all : forall g s a b, degap g (gslice (Some g) s a b) = py_slice (degap g s) a b.
+Proof. exact gap_window_spec_all. Qed.
+Print Assumptions C06_gap_window_spec_all.
+
+Theorem C06_gap_int_spec : forall q g i u sp fi,
+  let s := sdata q in
+  let d := degap g s in
+  let n := Z.of_nat (length d) in
+  let r := if i <? 0 then i + n else i in
+  (0 <= r < n ->
+     let k := Z.of_nat (col_of g s (Z.to_nat r)) in
+     0 <= k < Z.of_nat (length s) /\
+     getitem_g q (WInt i) u sp fi (Some g) = getitem q (WInt k) u sp fi /\
+     zsub s k (k + 1) = zsub d r (r + 1)) /\
+  (~ (0 <= r < n) -> getitem_g q (WInt i) u sp fi (Some g) = Err E_Index).
+Proof. exact gap_int_spec. Qed.
+Print Assumptions C06_gap_int_spec.
+
+(* gap x update_fts.  int / slice windows cut the features at the COLUMN bounds of the window ... *)
+Theorem C06_gap_update_slice_path : forall q g a b step sp fi,
+  let s := sdata q in
+  let len := Z.of_nat (length s) in
+  let lo := fst (slice_bounds len (adj g s a) (adj g s b)) in
+  let hi := snd (slice_bounds len (adj g s a) (adj g s b)) in
+  upper s = s -> (step = None \/ step = Some 1) -> forallb (ft_in len) (sfts q) = true ->
+  getitem_g q (WSlice a b step) true sp fi (Some g) = Ok (mkSeq (zsub s lo hi) (slice_spec lo hi lo (sfts q))).
+Proof. exact gap_update_slice_path. Qed.
+Print Assumptions C06_gap_update_slice_path.
+
+(* ... Location-like windows cut them at the NUMBERS of the window (which count residues), as if gap were not given *)
+Theorem C06_gap_update_loc_path : forall q g w sp fi,
+  let len := Z.of_nat (length (sdata q)) in
+  let lo := lstart w in
+  let hi := lstop w in
+  forallb in_alpha (sdata q) = true -> loc_in len w = true -> forallb (ft_in len) (sfts q) = true ->
+  getitem_g q (WLoc w) true sp fi (Some g) =
+    Ok (mkSeq (upper (gpiece (Some g) (sdata q) w))
+              (if is_minus w then fts_rc (hi - lo) (slice_spec lo hi lo (sfts q)) else slice_spec lo hi lo (sfts q))).
+Proof. exact gap_update_loc_path. Qed.
+Print Assumptions C06_gap_update_loc_path.
+
+(* the two paths agree on a forward window [a, b) when its bounds are aligned (residue a is column a, residue b is column b) *)
+Theorem C06_gap_update_paths_agree_partial : forall q g w sp fi,
+  is_minus w = false -> 0 <= lstart w -> 0 <= lstop w -> aligned g (sdata q) (lstart w) (lstop w) = true ->
+  getitem_g q (WLoc w) true sp fi (Some g) =
+  getitem_g q (WSlice (Some (lstart w)) (Some (lstop w)) None) true sp fi (Some g).
+Proof. exact gap_update_paths_agree. Qed.
+Print Assumptions C06_gap_update_paths_agree_partial.
+
+(* ... they do not agree in general ... *)
+Theorem C06_gap_update_paths_agree_refuted :
+  exists q g w, state_ok (Some g) q = true /\ win_ok_g q (WLoc w) true (Some g) = true /\ is_minus w = false /\
+    aligned g (sdata q) (lstart w) (lstop w) = false /\
+    getitem_g q (WLoc w) true None None (Some g) <>
+    getitem_g q (WSlice (Some (lstart w)) (Some (lstop w)) None) true None None (Some g).
+Proof. exact gap_update_paths_refuted. Qed.
+Print Assumptions C06_gap_update_paths_agree_refuted.
+
+(* ... and for EVERY non-aligned window inside the residues some single-location feature inside the sequence tells them apart *)
+Theorem C06_gap_update_paths_differ : forall s g a b sp fi,
+  0 <= a -> a < b -> b <= Z.of_nat (length (degap g s)) -> aligned g s a b = false ->
+  exists f, ft_in (Z.of_nat (length s)) f = true /\ length (flocs f) = 1%nat /\
+    getitem_g (mkSeq s [f]) (WLoc (mkLoc a b S_FORWARD 0)) true sp fi (Some g) <>
+    getitem_g (mkSeq s [f]) (WSlice (Some a) (Some b) None) true sp fi (Some g).
+Proof. exact gap_update_paths_differ. Qed.
+Print Assumptions C06_gap_update_paths_differ.
+
+(* filler on descending non-overlapping minus-strand locations pads to the length of the feature's range too *)
+Theorem C06_filler_pads_minus : forall s c l0 r, is_minus l0 = true ->
+  0 <= lstart l0 -> lstart l0 <= lstop l0 -> lstop l0 <= Z.of_nat (length s) -> chain_ok_minus (Z.of_nat (length s)) l0 r = true ->
+  Z.of_nat (length (concat (extract_spec s (Some [c]) None (l0 :: r)))) = lstop l0 - lstart (last r l0).
+Proof. exact filler_pads_minus. Qed.
+Print Assumptions C06_filler_pads_minus.
+
 (* ---- non-vacuity: a minus-strand two-location feature and a cut plus-strand feature, window [2, 6) ---- *)
 Example C06_witness :
   let data := bs "ACGTACGT"%bs in
@@ -299,3 +445,22 @@ Example C06_witness_gap :
   forallb in_alpha_rna (bs "ACGU"%bs) = true /\ is_pm S_NONE = false /\
   chain_ok 8 (mkLoc 0 2 S_FORWARD 0) [mkLoc 4 6 S_FORWARD 0] = true.
 Proof. exact (conj eq_refl (conj eq_refl (conj eq_refl (conj eq_refl eq_refl)))). Qed.
+
+(* round 6: an RNA case is inside the harness domain (not inside wf_C06); 'mRNA' is not found through 'RNA'; a basket of two
+   sequences indexed by a type name; aligned / not aligned bounds; a descending minus-strand chain *)
+Example C06_witness_round6 :
+  wf_C06u (bs "ACGU"%bs) [(Some (bs "cds"%bs), [(0, 3, 45, 0)])] (RType (bs "CDS"%bs)) true None None None = true /\
+  wf_C06 (bs "ACGU"%bs) [(Some (bs "cds"%bs), [(0, 3, 45, 0)])] (RType (bs "CDS"%bs)) true None None None = false /\
+  fts_get (bs "MRNA"%bs) [mkFt (Some (bs "RNA"%bs)) [mkLoc 0 1 S_FORWARD 0]; mkFt (Some (bs "mRNA"%bs)) [mkLoc 1 2 S_FORWARD 0]]
+    = Some (mkFt (Some (bs "mRNA"%bs)) [mkLoc 1 2 S_FORWARD 0]) /\
+  wf_C06b [(bs "ACGT"%bs, [(Some (bs "cds"%bs), [(0, 2, 45, 0)])]); (bs "GGA"%bs, [(Some (bs "CDS"%bs), [(1, 3, 43, 0)])])]
+          (QPairS None None (Some (-1)) (RType (bs "cds"%bs))) false None None None = true /\
+  Bstr (show (show_bres (bind (build_basket 0 [(bs "ACGT"%bs, [(Some (bs "cds"%bs), [(0, 2, 45, 0)])]);
+                                               (bs "GGA"%bs, [(Some (bs "CDS"%bs), [(1, 3, 43, 0)])])])
+                 (fun qs => basket_getitem qs (BPairS None None (Some (-1)) (WType (bs "cds"%bs))) false None None None)))) =
+  Bstr (show (VL [VS (bs "basket"%bs);
+                  VL [VL [VI 1; VL [VS (bs "GA"%bs); VL [VL [VS (bs "CDS"%bs); VL [VL [VI 1; VI 3; VS (bs "+"%bs); VI 0]]]]]];
+                      VL [VI 0; VL [VS (bs "GT"%bs); VL [VL [VS (bs "cds"%bs); VL [VL [VI 0; VI 2; VS (bs "-"%bs); VI 0]]]]]]]])) /\
+  aligned (bs "-"%bs) (bs "ACG-T"%bs) 0 2 = true /\ aligned (bs "-"%bs) (bs "A-CG"%bs) 1 2 = false /\
+  chain_ok_minus 8 (mkLoc 5 7 S_REVERSE 0) [mkLoc 1 3 S_REVERSE 0] = true.
+Proof. exact witness_round6. Qed.
